@@ -3,7 +3,6 @@ package c10
 import (
 	"bytes"
 	"fmt"
-	"sort"
 	"strings"
 
 	"verifharness/hx"
@@ -13,6 +12,14 @@ import (
 // observe (answers of SubmitBatchTxs / GetNextBatch, and what a freshly restarted sequencer on a
 // copy of the durable image hands out).  It knows nothing about the Lean model and nothing about
 // the datastore layout; Batch.Hash() is used only to *classify the cause* of an order violation.
+//
+// "Handed out" means RETURNED TO THE CALLER.  A GetNextBatch that dies after its durable Delete and before it
+// returns (crash-next at=1) has handed out nothing: the batch stays "accepted, not yet handed out" for the oracle,
+// and the restart that follows must still deliver it.
+//
+// Cause classification: a known-finding signature is given only when the observed loss / reordering is EXACTLY what
+// that defect predicts (explain()); every other loss / reordering gets the generic signature of its clause
+// (…/accepted-batch-lost, …/order-changed-by-restart, …/out-of-order), so a known finding cannot hide another one.
 //
 // Oracle (properties.jsonl C10):
 //   FIFO/exactly once : every batch handed out is the oldest accepted batch not yet handed out
@@ -24,14 +31,15 @@ import (
 
 const (
 	// known findings (known-findings.json)
-	sigDupLost  = "C10/durable/duplicate-content-lost-on-restart"
-	sigKeyOrder = "C10/fifo/restart-delivers-in-key-order"
+	sigDupLost     = "C10/durable/duplicate-content-lost-on-restart"
+	sigKeyOrder    = "C10/fifo/restart-delivers-in-key-order"
+	sigCrashWindow = "C10/durable/batch-lost-in-crash-after-delete-before-return"
 )
 
 type pend struct {
-	txs      [][]byte
-	c        string // canonical content
-	reloaded bool   // went through a restart while pending
+	txs [][]byte
+	c   string // canonical content
+	dup bool   // since it was accepted (or last reloaded) another batch with the same contents was pending at the same time
 }
 
 type monitor struct {
@@ -41,8 +49,14 @@ type monitor struct {
 	pending   []pend          // accepted, not yet handed out, acceptance order
 	delivered map[string]int  // content -> times handed out
 	rejected  map[string]bool // contents of submissions that were refused / skipped / died before their write
-	dupTaint  map[string]bool // contents that were pending twice at the same time
-	restarts  int
+	// rec[c]: the most recent queue event for contents c was an acceptance (true) or a removal (false).  Used ONLY
+	// by explain(): batches with equal contents share one write-ahead record, which the last such event wrote / deleted.
+	rec map[string]bool
+	// the contents a GetNextBatch removed from the queue when the process died before it returned (crash-next at=1);
+	// consumed by the restart that follows
+	crashRemoved    string
+	crashRemovedSet bool
+	restarts        int
 	off       bool // monitoring suspended (an empty batch was put into a bare queue: not distinguishable from "no batch")
 
 	lastWrites int // number of atomic writes already probed
@@ -50,7 +64,7 @@ type monitor struct {
 }
 
 func newMonitor(c *hx.Ctx, w *world) *monitor {
-	return &monitor{c: c, w: w, delivered: map[string]int{}, rejected: map[string]bool{}, dupTaint: map[string]bool{}}
+	return &monitor{c: c, w: w, delivered: map[string]int{}, rejected: map[string]bool{}, rec: map[string]bool{}}
 }
 
 func content(txs [][]byte) string { return hx.HexList(txs) }
@@ -97,11 +111,17 @@ func (m *monitor) onSubmit(id []byte, txs [][]byte, out string, before map[strin
 		if w.max > 0 && len(m.pending) >= w.max {
 			m.c.Report("C10/bound/exceeded", fmt.Sprintf("accepted a batch while %d batches were pending (max %d)", len(m.pending), w.max))
 		}
-		if m.isPending(c) {
-			m.dupTaint[c] = true
+		dup := false
+		for i := range m.pending {
+			if m.pending[i].c == c {
+				m.pending[i].dup, dup = true, true
+			}
+		}
+		if dup {
 			m.c.Hit("dup-content-pending")
 		}
-		m.pending = append(m.pending, pend{txs: txs, c: c})
+		m.pending = append(m.pending, pend{txs: txs, c: c, dup: dup})
+		m.rec[c] = true
 		delete(m.rejected, c)
 	case "skip-empty", "err:id", "err:full", "err:other":
 		cls := strings.TrimPrefix(out, "err:")
@@ -143,8 +163,9 @@ func (m *monitor) onNext(id []byte, txs [][]byte, out string, before map[string]
 	}
 	if txs == nil {
 		if out == "empty" && len(m.pending) > 0 {
-			for _, p := range m.pending {
-				m.reportLost(p.c, "nothing is handed out although an accepted batch was never handed out")
+			// inside one process lifetime neither known finding explains this
+			for range m.pending {
+				m.c.Report("C10/durable/accepted-batch-lost", "nothing is handed out although an accepted batch was never handed out")
 			}
 			m.pending = nil
 		}
@@ -161,12 +182,8 @@ func (m *monitor) onNext(id []byte, txs [][]byte, out string, before map[string]
 	switch {
 	case idx == 0:
 	case idx > 0:
-		head, got := m.pending[0], m.pending[idx]
-		if head.reloaded && got.reloaded && hashHex(got.txs) < hashHex(head.txs) {
-			m.c.Report(sigKeyOrder, "after a restart the batches come out in the order of their content hashes, not in the order they were accepted")
-		} else {
-			m.c.Report("C10/fifo/out-of-order", fmt.Sprintf("handed out the batch accepted %d places behind the oldest pending one (restarts so far: %d)", idx, m.restarts))
-		}
+		// the order a restart produced was judged (and adopted) at the restart; a deviation here is never explained by it
+		m.c.Report("C10/fifo/out-of-order", fmt.Sprintf("handed out the batch %d places behind the oldest pending one (restarts so far: %d)", idx, m.restarts))
 	default:
 		switch {
 		case m.delivered[c] > 0 && m.restarts > 0:
@@ -183,14 +200,62 @@ func (m *monitor) onNext(id []byte, txs [][]byte, out string, before map[string]
 		m.pending = append(m.pending[:idx:idx], m.pending[idx+1:]...)
 	}
 	m.delivered[c]++
+	m.rec[c] = false
 }
 
-func (m *monitor) reportLost(c, what string) {
-	if m.dupTaint[c] {
-		m.c.Report(sigDupLost, "two accepted batches with identical contents share one datastore key; "+what)
-	} else {
-		m.c.Report("C10/durable/accepted-batch-lost", what)
+// onCrashedNext: the process died during GetNextBatch after the call's writes became durable and before the call
+// returned.  Nothing was handed out.  What the dying call had taken out of the queue is remembered for the cause
+// classification at the restart that follows.
+func (m *monitor) onCrashedNext(id []byte, txs [][]byte, out string, nBefore int) {
+	if m.off {
+		return
 	}
+	w := m.w
+	if w.mode == "seq" && !bytes.Equal(id, w.id) {
+		if out != "err:id" {
+			m.c.Report("C10/admission/foreign-id-served", "GetNextBatch for a foreign chain id answered "+out)
+		}
+		if txs == nil {
+			if w.ds.NumWrites() != nBefore {
+				m.c.Report("C10/reject/id-wrote-to-datastore", "a refused GetNextBatch changed the datastore")
+			}
+			return
+		}
+	}
+	if txs == nil {
+		return
+	}
+	m.crashRemoved, m.crashRemovedSet = content(txs), true
+}
+
+// explain answers whether the loss of want-have batches with contents c at a restart is exactly what the known
+// defects predict, and how many of the lost copies go to which defect:
+//   - crash window: the dying GetNextBatch had popped the OLDEST pending batch, its contents are c, and its Delete
+//     was durable: that copy is gone (1 copy);
+//   - shared key: some pending batch with contents c was pending together with an equal one (dup): all of them share
+//     one write-ahead record, present iff the most recent event for c was an acceptance: 1 or 0 copies come back.
+func (m *monitor) explain(c string, pending []pend, want, have int, crashHead string) (crash, dup int, ok bool) {
+	w, rec := want, m.rec[c]
+	if crashHead != "" && crashHead == c && w > 0 {
+		w, crash, rec = w-1, 1, false
+	}
+	tainted := false
+	for _, p := range pending {
+		if p.c == c && p.dup {
+			tainted = true
+		}
+	}
+	pred := w
+	if tainted && w > 0 {
+		pred = 0
+		if rec {
+			pred = 1
+		}
+	}
+	if have != pred {
+		return 0, 0, false
+	}
+	return crash, w - pred, true
 }
 
 // probe restarts a sequencer on a copy of `img` and returns everything it hands out.
@@ -217,7 +282,8 @@ func (m *monitor) probe(img map[string][]byte) ([][][]byte, bool) {
 
 // judge compares what a restart on a durable image hands out with the pending batches.
 // It returns the contents that did not survive.  With report=false it only answers whether the image is consistent.
-func (m *monitor) judge(got [][][]byte, pending []pend, report bool) (lost map[string]int, okAll bool) {
+// crashHead: contents of the oldest pending batch if the process died in a GetNextBatch that had removed it ("" otherwise).
+func (m *monitor) judge(got [][][]byte, pending []pend, report bool, crashHead string) (lost map[string]int, okAll bool) {
 	okAll = true
 	want := map[string]int{}
 	for _, p := range pending {
@@ -233,7 +299,19 @@ func (m *monitor) judge(got [][][]byte, pending []pend, report bool) (lost map[s
 			okAll = false
 			lost[c] = want[c] - have[c]
 			if report {
-				m.reportLost(c, "an accepted batch that was not yet handed out does not survive a restart")
+				crash, dup, ok := m.explain(c, pending, want[c], have[c], crashHead)
+				switch {
+				case !ok:
+					m.c.Report("C10/durable/accepted-batch-lost", "an accepted batch that was not yet handed out does not survive a restart")
+				default:
+					if crash > 0 {
+						m.c.Report(sigCrashWindow, "GetNextBatch deletes the write-ahead record before it returns: the process died after the Delete was durable and before the caller had the batch; the restarted sequencer does not hand it out - it is neither on disk nor with the caller")
+						m.c.Hit("crash-window-loss")
+					}
+					if dup > 0 {
+						m.c.Report(sigDupLost, "two accepted batches with identical contents share one datastore key; an accepted batch that was not yet handed out does not survive a restart")
+					}
+				}
 			}
 		}
 	}
@@ -281,7 +359,14 @@ func (m *monitor) judge(got [][][]byte, pending []pend, report bool) (lost map[s
 	if strings.Join(a, ";") != strings.Join(b, ";") {
 		okAll = false
 		if report {
-			if sort.SliceIsSorted(bt, func(i, j int) bool { return hashHex(bt[i]) < hashHex(bt[j]) }) {
+			// explained by the key order iff what the restarted sequencer hands out is exactly ascending in Batch.Hash
+			asc := true
+			for i := 0; i+1 < len(bt); i++ {
+				if hashHex(bt[i]) >= hashHex(bt[i+1]) {
+					asc = false
+				}
+			}
+			if asc {
 				m.c.Report(sigKeyOrder, "a restarted sequencer hands the pending batches out in the order of their content hashes, not in the order they were accepted")
 			} else {
 				m.c.Report("C10/fifo/order-changed-by-restart", "a restarted sequencer hands the pending batches out in another order than they were accepted")
@@ -298,8 +383,14 @@ func (m *monitor) judge(got [][][]byte, pending []pend, report bool) (lost map[s
 }
 
 // beforeRestart: the process is about to be restarted on `img`.  What does not survive is reported
-// and forgotten (it can never be handed out any more); everything pending is marked as reloaded.
+// and forgotten (it can never be handed out any more); the survivors are from now on expected in the order the
+// restarted sequencer holds them (any change of order was judged here).
 func (m *monitor) beforeRestart(img map[string][]byte) {
+	crashHead := ""
+	if m.crashRemovedSet && len(m.pending) > 0 && m.pending[0].c == m.crashRemoved {
+		crashHead = m.crashRemoved
+	}
+	m.crashRemoved, m.crashRemovedSet = "", false
 	if m.off {
 		return
 	}
@@ -308,15 +399,20 @@ func (m *monitor) beforeRestart(img map[string][]byte) {
 	if !ok {
 		return
 	}
-	lost, _ := m.judge(got, m.pending, true)
-	var keep []pend
+	m.judge(got, m.pending, true, crashHead)
+	left := map[string]int{}
 	for _, p := range m.pending {
-		if lost[p.c] > 0 {
-			lost[p.c]--
-			continue
+		left[p.c]++
+	}
+	var keep []pend
+	m.rec = map[string]bool{}
+	for _, g := range got {
+		c := content(g)
+		if left[c] > 0 {
+			left[c]--
+			keep = append(keep, pend{txs: g, c: c})
+			m.rec[c] = true
 		}
-		p.reloaded = true
-		keep = append(keep, p)
 	}
 	m.pending = keep
 	m.sync()
@@ -348,16 +444,16 @@ func (m *monitor) afterOp() {
 		for _, c := range m.prevPend {
 			before = append(before, pend{c: c})
 		}
-		_, okBefore := m.judge(got, before, false)
-		_, okAfter := m.judge(got, m.pending, false)
+		_, okBefore := m.judge(got, before, false, "")
+		_, okAfter := m.judge(got, m.pending, false, "")
 		if !okBefore && !okAfter {
-			m.judge(got, m.pending, true)
+			m.judge(got, m.pending, true, "")
 			m.c.Report("C10/crash/intermediate-image-inconsistent", "the durable image between two writes of one operation restarts into neither the state before nor after the operation")
 		}
 		m.c.Hit("probe:intermediate")
 	}
 	if got, ok := m.probe(ds.Image()); ok {
-		m.judge(got, m.pending, true)
+		m.judge(got, m.pending, true, "")
 		m.c.Hit("probe:boundary")
 	}
 	m.sync()
